@@ -1,224 +1,199 @@
 """
 C09 -- Versioned references resolve to exactly the named definition or fail cleanly.
 
-R1  match predicate (case-insensitive full name AND exact version, over the lookup list) and the outcome table over
-    (#matches in {0, 1, >=2}, exact-case): 0 -> UndefinedDataTypeError, >=2 -> DataTypeCollisionError,
-    (1, differs by case) -> DataTypeNameCollisionError, (1, exact) -> read exactly that definition.
-R2  relative names are completed with the referrer's own namespace.
-R3  self-exclusion and termination: the definition being read is removed (by identity of name+version) from the lookup
-    list it hands to its builder, and the builder passes that same list on: the lookup list strictly shrinks along any
-    reference chain, so a cycle ends in UndefinedDataTypeError instead of recursing forever.
-R4  cache discipline: the composite is cached once, after finalize() returned, outside any handler; a hit returns it
-    untouched; one definition object per file.
+The resolver, DSDLDefinition.read and the namespace reader are *abstractly evaluated* from their source over a small
+world of abstract definition files (reader_common); what is compared are observations: which definition was read, with
+which arguments, what came back, which error.
+
+R1  outcome table of reference resolution over (#matches in {0, 1, >=2}) x (letter case exact / differs): 0 ->
+    UndefinedDataTypeError; several -> DataTypeCollisionError; one differing by case -> DataTypeNameCollisionError; exactly
+    one -> that definition, and only that one, is read - with the referrer's lookup list, visitors and settings - and its type
+    is the result; the visitors are told.
+R2  a name without a namespace separator is completed with the referring definition's own namespace.
+R3  self-exclusion and termination: read() hands its builder the lookup list minus everything equal to itself (name and
+    version, so a same-named twin elsewhere goes too); a self-reference therefore ends in UndefinedDataTypeError.
+R4  cache discipline: a definition is built once; later reads return the same object without touching the file, the
+    parser or the builder; the namespace reader keeps one definition object per file path.
 """
 from __future__ import annotations
 
-import ast
-from typing import Any, Dict, List, Optional, Set, Tuple
+from typing import Any, Dict, List, Optional
 
-from ..core import AnalysisError, ClassInfo, Ctx, FuncInfo, body_without_docstring, calls_in, dotted, kwarg, norm, walk_no_nested
-from ..decide import A, f_and, f_atoms, f_eval, f_not, path_formula, paths_of, valuations
-from ..regions import exc_class_of
+from ..core import AnalysisError, Ctx
+from . import reader_common as R
 
 IDE = "_error.InvalidDefinitionError"
 
 
+def _is_ide(ctx: Ctx, name: Optional[str]) -> bool:
+    k = next((c for c in ctx.repo.all_classes().values() if c.name == name), None)
+    return k is not None and ctx.repo.is_subclass(k, IDE)
+
+
+def _is_sub(ctx: Ctx, name: Optional[str], base: str) -> bool:
+    """the error raised is the expected class or a more specific one"""
+    k = next((c for c in ctx.repo.all_classes().values() if c.name == name), None)
+    b = next((c for c in ctx.repo.all_classes().values() if c.name == base), None)
+    return k is not None and b is not None and ctx.repo.is_subclass(k, b)
+
+
 def rule_r1_r2(ctx: Ctx) -> None:
-    repo = ctx.repo
-    ctx.rule("C09.R1", "reference resolution: filter = (case-insensitive full name) and (exact version) over the lookup list; outcome table over match count and letter case", min_instances=3)
+    ctx.rule("C09.R1", "reference resolution: outcome table over match count and letter case; the single match - and nothing else - is read with the referrer's lookup list and settings, and its type is the result", min_instances=3)
     fn = ctx.func("_data_type_builder.DataTypeBuilder.resolve_versioned_data_type")
-    name_p, ver_p = fn.params[1], fn.params[2]
-    # the filter
-    fdefs = [st for st in walk_no_nested(fn.node) if isinstance(st, ast.Assign) and norm(st.targets[0]) == "found"]
-    good = len(fdefs) == 1
-    pred = None
-    src = None
-    if good:
-        v = fdefs[0].value
-        inner = v.args[0] if isinstance(v, ast.Call) and dotted(v.func) == "list" and v.args else v
-        if isinstance(inner, ast.Call) and dotted(inner.func) == "filter" and len(inner.args) == 2 and isinstance(inner.args[0], ast.Lambda):
-            pred, src = inner.args[0], norm(inner.args[1])
-        elif isinstance(inner, ast.ListComp) and len(inner.generators) == 1 and len(inner.generators[0].ifs) == 1:
-            g = inner.generators[0]
-            pred = ast.Lambda(args=ast.arguments(posonlyargs=[], args=[ast.arg(arg=norm(g.target))], kwonlyargs=[], kw_defaults=[], defaults=[]), body=g.ifs[0])
-            src = norm(g.iter)
-    conj: Set[str] = set()
-    if pred is not None:
-        d = pred.args.args[0].arg
-        body = pred.body
-        terms = body.values if isinstance(body, ast.BoolOp) and isinstance(body.op, ast.And) else [body]
-        for t in terms:
-            s = norm(t)
-            if s in ("%s.full_name.lower() == full_name.lower()" % d, "full_name.lower() == %s.full_name.lower()" % d):
-                conj.add("NAME_CI_EQ")
-            elif s in ("%s.version == %s" % (d, ver_p), "%s == %s.version" % (ver_p, d)):
-                conj.add("VERSION_EQ")
-            elif s in ("%s.version.major == %s.major" % (d, ver_p), "%s.version[0] == %s[0]" % (d, ver_p)):
-                conj.add("MAJOR_EQ")
-            elif s in ("%s.version.minor == %s.minor" % (d, ver_p), "%s.version[1] == %s[1]" % (d, ver_p)):
-                conj.add("MINOR_EQ")
-            elif s in ("%s.full_name == full_name" % d,):
-                conj.add("NAME_EQ")
-            else:
-                conj.add("?" + s)
-    if {"MAJOR_EQ", "MINOR_EQ"} <= conj:
-        conj -= {"MAJOR_EQ", "MINOR_EQ"}
-        conj.add("VERSION_EQ")
-    ctx.check(conj == {"NAME_CI_EQ", "VERSION_EQ"} and src == "self._lookup_definitions", fn.short, "filter: %s over %s" % (sorted(conj), src), "a reference matches definitions with the same full name (ignoring case) and exactly the same version, among the lookup definitions", fn.where(fdefs[0]) if fdefs else fn.where())
-
-    # outcome table
-    paths = paths_of(fn.node, opaque=["found", "full_name", "target_definition", "dt", "lookup_nss", "requested_ns", "subroot_ns", "error_description"])
-
-    def atom(e: Any) -> Any:
-        if isinstance(e, tuple):
-            if e[0] == "for":
-                return A("LOOP:" + str(e[1]))
-            raise AnalysisError("resolve_versioned_data_type: unexpected marker %s" % e[0])
-        s = norm(e)
-        table = {
-            "found": f_not(A("N0")),
-            "len(found) == 0": A("N0"),
-            "len(found) > 1": A("N2"),
-            "len(found) >= 2": A("N2"),
-            "found[0].full_name != found[1].full_name": A("CASE2"),
-            "found[0].full_name.lower() == found[1].full_name.lower()": True,
-            "found[0].full_name != full_name": f_not(A("EXACT")),
-            "found[0].full_name.lower() == full_name.lower()": True,
-            "_serializable.CompositeType.NAME_COMPONENT_SEPARATOR in %s" % name_p: A("HAS_SEP"),
-        }
-        if s in table:
-            return table[s]
-        return A("FREE:" + s)  # conditions that only shape the error message
-
-    forms = [(p, path_formula(p, atom)) for p in paths]
-    free = sorted({a for _, f in forms for a in f_atoms(f) if a.startswith("FREE:") or a.startswith("LOOP:")})
-    atoms = ["N0", "N2", "CASE2", "EXACT", "HAS_SEP"] + free
-    bad = []
-    n = 0
-    for v in valuations(atoms, lambda v: not (v["N0"] and v["N2"])):
-        taken = [p for p, f in forms if f_eval(f, v)]
-        n += 1
-        if len(taken) != 1:
-            raise AnalysisError("resolve_versioned_data_type: %d feasible paths for %s" % (len(taken), {k: v[k] for k in atoms[:5]}))
-        p = taken[0]
-        k = exc_class_of(repo, fn.module, fn.cls, p.value) if p.kind == "raise" else None
-        kname = k.name if isinstance(k, ClassInfo) else None
-        is_ide = isinstance(k, ClassInfo) and repo.is_subclass(k, IDE)
-        if v["N0"]:
-            ok = p.kind == "raise" and kname == "UndefinedDataTypeError" and is_ide
-        elif v["N2"]:
-            ok = p.kind == "raise" and isinstance(k, ClassInfo) and repo.is_subclass(k, ctx.cls("_data_type_builder.DataTypeCollisionError")) and is_ide
-        elif not v["EXACT"]:
-            ok = p.kind == "raise" and kname == "DataTypeNameCollisionError" and is_ide
-        else:
-            ok = p.kind == "return" and norm(p.value) == "dt"
+    w = R.World()
+    A = R.ADef(w, "ns.sub.A", 1, 0)
+    B10 = R.ADef(w, "ns.sub.B", 1, 0)
+    B11 = R.ADef(w, "ns.sub.B", 1, 1)
+    B20 = R.ADef(w, "ns.sub.B", 2, 0)
+    Bdup = R.ADef(w, "ns.sub.B", 1, 1, root="/elsewhere")  # a second file with the same name and version
+    Blow = R.ADef(w, "ns.sub.b", 2, 0, root="/elsewhere")  # differs from B.2.0 by letter case only
+    O = R.ADef(w, "other.B", 1, 0)
+    cases = [
+        # (reference, version, lookup list, expected error or the definition expected to be read)
+        ("ns.sub.B", (1, 0), [A, B10, B11, B20, O], B10),
+        ("ns.sub.B", (2, 0), [A, B10, B11, B20, O], B20),
+        ("ns.sub.B", (1, 1), [B11, A, O], B11),
+        ("other.B", (1, 0), [A, B10, O], O),
+        ("ns.sub.B", (1, 2), [A, B10, B11, B20, O], "UndefinedDataTypeError"),
+        ("ns.sub.C", (1, 0), [A, B10, B11, B20, O], "UndefinedDataTypeError"),
+        ("ns.sub.B", (1, 0), [], "UndefinedDataTypeError"),
+        ("ns.sub.B", (1, 1), [A, B11, Bdup], "DataTypeCollisionError"),
+        ("ns.sub.B", (2, 0), [A, B20, Blow], "DataTypeCollisionError"),
+        ("ns.sub.b", (1, 0), [A, B10, B11], "DataTypeNameCollisionError"),
+        ("NS.SUB.B", (1, 1), [A, B10, B11], "DataTypeNameCollisionError"),
+        ("ns.sub.b", (2, 0), [A, Blow], Blow),
+    ]
+    bad_table, bad_read, bad_vis, bad_cls = [], [], [], []
+    for ref, ver, lookups, want in cases:
+        del w.log[:]
+        for d in w.defs:
+            d.__dict__["composite_type"] = None
+        vis = R.VisitorLog()
+        o = R.resolve(ctx, A, lookups, ref, ver[0], ver[1], visitors=[vis])
+        ctx.count()
+        label = "%s.%d.%d among %s" % (ref, ver[0], ver[1], [d.label for d in lookups])
+        if isinstance(want, str):
+            if not _is_sub(ctx, o["raised"], want):
+                bad_table.append({"reference": label, "found": o["raised"] or "resolved to %s" % getattr(o["result"], "label", o["result"]), "expected": want})
+            elif not _is_ide(ctx, o["raised"]):
+                bad_cls.append(o["raised"])
+            if w.reads() or w.texts():
+                bad_read.append({"reference": label, "read although the reference failed": w.reads() + w.texts()})
+            continue
+        if o["raised"] or getattr(o["result"], "label", None) != want.label:
+            bad_table.append({"reference": label, "found": o["raised"] or getattr(o["result"], "label", o["result"]), "expected": want.label})
+            continue
+        reads = [e for e in w.log if e[0] == "read"]
+        others = [e for e in w.log if e[0] in ("text", "other")]
+        ok = len(reads) == 1 and reads[0][1] is want and not others
+        if ok:
+            _, _, lk, vs, handler, allow, kw = reads[0]
+            ok = [id(x) for x in lk] == [id(x) for x in lookups] and list(vs) == [vis] and handler is o["handler"] and allow is True
         if not ok:
-            bad.append({"matches": 0 if v["N0"] else 2 if v["N2"] else 1, "exact_case": v["EXACT"], "found": "%s %s" % (p.kind, kname or (norm(p.value) if p.value is not None else ""))})
-    ctx.count(n)
-    ctx.check(not bad, fn.short, "outcome table", "no match -> undefined type; several -> collision; one differing by letter case -> name collision; exactly one -> that definition is read", fn.where(), bad[:4])
-    # what is read is found[0], with the builder's own lookup list and settings
-    reads = [c for c in calls_in(fn.node) if isinstance(c.func, ast.Attribute) and c.func.attr == "read"]
-    good = len(reads) == 1
-    if good:
-        c = reads[0]
-        recv = norm(c.func.value)
-        tdef = [norm(st.value) for st in walk_no_nested(fn.node) if isinstance(st, ast.Assign) and norm(st.targets[0]) == recv]
-        kws = {k.arg: norm(k.value) for k in c.keywords}
-        good = tdef == ["found[0]"] and kws.get("lookup_definitions") == "self._lookup_definitions" and kws.get("allow_unregulated_fixed_port_id") == "self._allow_unregulated_fixed_port_id" and kws.get("definition_visitors") == "self._definition_visitors"
-        assigned = [norm(st.targets[0]) for st in walk_no_nested(fn.node) if isinstance(st, ast.Assign) and st.value is c]
-        good = good and assigned == ["dt"]
-    ctx.check(good, fn.short, "dt = found[0].read(lookup_definitions=self._lookup_definitions, ...)", "the single match is read with the referrer's lookup list and settings, and its type is the result", fn.where())
+            bad_read.append({"reference": label, "reads": [e[1].label for e in reads], "other accesses": [(e[1].label, e[0]) for e in others]})
+        if [(a is A, b is want) for a, b in vis.calls] != [(True, True)]:
+            bad_vis.append({"reference": label, "visitor calls": [(getattr(a, "label", a), getattr(b, "label", b)) for a, b in vis.calls]})
+    ctx.check(not bad_table, fn.short, "outcome table", "no match -> undefined type; several -> collision; one differing by letter case -> name collision; exactly one -> that definition is read", fn.where(), bad_table[:4])
+    ctx.check(not bad_cls, fn.short, "rejection class", "failed references are InvalidDefinitionError subclasses", fn.where(), sorted(set(bad_cls)), nontrivial=False)
+    ctx.check(not bad_read, fn.short, "the single match is read, with the referrer's lookup list, visitors, handler and settings", "the single match - and nothing else - is read with the referrer's lookup list and settings, and its type is the result", fn.where(), bad_read[:3])
+    ctx.check(not bad_vis, fn.short, "visitors are told (referrer, dependency)", "dependency discovery relies on the visitors being told about every resolved reference", fn.where(), bad_vis[:3], nontrivial=False)
+
+    # the outcome of a reference does not depend on what the same builder resolved before it
+    seq = [("ns.sub.B", 1, 0), ("ns.sub.b", 1, 0), ("NS.sub.B", 1, 0), ("ns.sub.B", 1, 0), ("ns.sub.B", 1, 1), ("ns.sub.C", 1, 0)]
+    for d in w.defs:
+        d.__dict__["composite_type"] = None
+    got_seq = R.resolve_sequence(ctx, A, [A, B10, B11, O], seq)
+    ctx.count(len(seq))
+    want_seq = [B10.label, "DataTypeNameCollisionError", "DataTypeNameCollisionError", B10.label, B11.label, "UndefinedDataTypeError"]
+    ctx.check(got_seq == want_seq, fn.short, "a sequence of references on one builder: %s" % got_seq, "every reference is judged on its own: an earlier, correctly spelled reference must not make a later, wrongly cased one succeed", fn.where(), {"expected": want_seq})
 
     ctx.rule("C09.R2", "a name without a namespace separator is completed with the referring definition's full namespace", min_instances=1)
-    env_ok = []
-    for p in paths_of(fn.node, opaque=["found", "target_definition", "dt"]):
-        fnm = p.env.get("full_name")
-        has_sep = None
-        for c, pol in p.conds:
-            if not isinstance(c, tuple) and norm(c) == "_serializable.CompositeType.NAME_COMPONENT_SEPARATOR in %s" % name_p:
-                has_sep = pol
-        if fnm is None or has_sep is None:
-            continue
-        want = name_p if has_sep else "_serializable.CompositeType.NAME_COMPONENT_SEPARATOR.join([self._definition.full_namespace, %s])" % name_p
-        env_ok.append(norm(fnm) == want)
-    ctx.check(bool(env_ok) and all(env_ok), fn.short, "full_name = name | <own full namespace>.name", "relative references are resolved in the referring definition's own namespace", fn.where())
-    b = ctx.cls("_data_type_builder.DataTypeBuilder")
-    init = b.methods["__init__"]
-    stores = {norm(st.targets[0]): norm(st.value) for st in walk_no_nested(init.node) if isinstance(st, ast.Assign) and len(st.targets) == 1}
-    ctx.check(stores.get("self._definition") == "definition" and stores.get("self._lookup_definitions") == "list(lookup_definitions)", init.short, "definition / lookup list stored as given", "the builder resolves against exactly the list it was given", init.where(), nontrivial=False)
+    bad = []
+    X = R.ADef(w, "ns.B", 1, 0)
+    Y = R.ADef(w, "B", 1, 0, root="/rootless")
+    for ref, lookups, want in (("B", [A, B10, X, O], B10), ("B", [A, X, O], "UndefinedDataTypeError"), ("sub.B", [A, B10], "UndefinedDataTypeError")):
+        del w.log[:]
+        for d in w.defs:
+            d.__dict__["composite_type"] = None
+        o = R.resolve(ctx, A, lookups, ref, 1, 0)
+        ctx.count()
+        got = o["raised"] or getattr(o["result"], "label", o["result"])
+        if got != (want if isinstance(want, str) else want.label):
+            bad.append({"reference": ref, "referrer": A.label, "lookup": [d.label for d in lookups], "found": got, "expected": want if isinstance(want, str) else want.label})
+    ctx.check(not bad, fn.short, "relative names resolve in the referrer's namespace", "relative references are resolved in the referring definition's own namespace, nowhere else", fn.where(), bad)
 
 
 def rule_r3(ctx: Ctx) -> None:
-    ctx.rule("C09.R3", "self-exclusion: read() filters itself (by name+version equality) out of the lookup list before building, hands exactly that list to the builder; the builder forwards the same list", min_instances=2)
+    ctx.rule("C09.R3", "self-exclusion: read() hands its builder the lookup list minus everything equal to itself (name and version); the other arguments unchanged", min_instances=2)
     rd = ctx.func("_dsdl_definition.DSDLDefinition.read")
-    lp = rd.params[1]
-    filt = [st for st in walk_no_nested(rd.node) if isinstance(st, ast.Assign) and norm(st.targets[0]) == lp]
-    good = len(filt) == 1
-    detail = None
+    w = R.World()
+    B10, B11 = R.ADef(w, "ns.sub.B", 1, 0), R.ADef(w, "ns.sub.B", 1, 1)
+    own = R.own_definition(ctx, "ns.sub.T", 1, 2)
+    twin = R.own_definition(ctx, "ns.sub.T", 1, 2, root="/elsewhere")
+    older = R.own_definition(ctx, "ns.sub.T", 1, 1)
+    lookups = [B10, own, twin, B11, older]
+    o = R.read_own(ctx, own, lookups)
+    ctx.count()
+    if o["raised"]:
+        raise AnalysisError("DSDLDefinition.read over the abstract world raised %s" % o["raised"])
+    good = len(o["builders"]) == 1
+    passed: List[Any] = []
+    kw: Dict[str, Any] = {}
     if good:
-        v = filt[0].value
-        inner = v.args[0] if isinstance(v, ast.Call) and dotted(v.func) == "list" and v.args else v
-        pred_s = src = None
-        if isinstance(inner, ast.Call) and dotted(inner.func) == "filter" and isinstance(inner.args[0], ast.Lambda):
-            d = inner.args[0].args.args[0].arg
-            pred_s, src = norm(inner.args[0].body).replace(d, "d"), norm(inner.args[1])
-        elif isinstance(inner, ast.ListComp) and len(inner.generators) == 1 and len(inner.generators[0].ifs) == 1:
-            d = norm(inner.generators[0].target)
-            pred_s, src = norm(inner.generators[0].ifs[0]).replace(d, "d"), norm(inner.generators[0].iter)
-        detail = {"predicate": pred_s, "source": src}
-        good = pred_s in ("d != self", "self != d", "not d == self", "not self == d") and src == lp
-    ctx.check(good, rd.short, "lookup list minus self: %s" % (detail or {}).get("predicate"), "the definition being read must not be able to resolve a reference to itself (equality is by full name and version, so a same-named twin in another directory is excluded too)", rd.where(filt[0]) if filt else rd.where(), detail)
-    # equality is by name and version
-    eq = ctx.func("_dsdl_definition.DSDLDefinition.__eq__")
-    rets = [norm(r.value) for r in walk_no_nested(eq.node) if isinstance(r, ast.Return) and norm(r.value) != "NotImplemented"]
-    ctx.check(rets == ["self.full_name == other.full_name and self.version == other.version"], eq.short, str(rets), "definitions are identified by full name and version", eq.where(), nontrivial=False)
-    # the filtered list is what the builder receives; the filter precedes the builder
-    builders = [c for c in calls_in(rd.node) if (dotted(c.func) or "").endswith("DataTypeBuilder")]
-    good = len(builders) == 1 and norm(kwarg(builders[0], "lookup_definitions", 1)) == lp and norm(kwarg(builders[0], "definition", 0)) == "self" and bool(filt) and filt[0].lineno < builders[0].lineno
-    ctx.check(good, rd.short, "DataTypeBuilder(definition=self, lookup_definitions=<filtered list>)", "the builder works on the list from which the current definition has been removed: the list shrinks along every reference chain (termination)", rd.where())
+        kw = o["builders"][0].kw
+        passed = list(kw.get("lookup_definitions") or [])
+        good = [id(x) for x in passed] == [id(B10), id(B11), id(older)]
+    ctx.check(good, rd.short, "lookup list minus self: %s" % [getattr(x, "label", None) or "%s (own class)" % getattr(x, "_file_path", "?") for x in passed], "the definition being read must not be able to resolve a reference to itself (equality is by full name and version, so a same-named twin in another directory is excluded too); everything else stays, in order", rd.where())
+    good2 = kw.get("definition") is own and list(kw.get("definition_visitors") or []) == [o["visitor"]] and kw.get("print_output_handler") is o["handler"] and kw.get("allow_unregulated_fixed_port_id") is True
+    ctx.check(good2, rd.short, "DataTypeBuilder(definition=self, lookup_definitions=<filtered list>, visitors, handler, settings as given)", "the builder works for this definition with the caller's visitors, handler and settings", rd.where(), {k: repr(v)[:60] for k, v in kw.items()})
+    # the text parsed is the definition's own file, by that builder
+    parses = o["parses"]
+    ctx.check(len(parses) == 1 and parses[0][0][:2] == ["FILE-TEXT", o["builders"][0]] if o["builders"] else False, rd.short, "parse(<own text>, <that builder>)", "the definition's own text is parsed into that builder", rd.where(), nontrivial=False)
 
 
 def rule_r4(ctx: Ctx) -> None:
-    ctx.rule("C09.R4", "cache discipline: single non-None store of the cached type, from finalize(), outside handlers; a hit returns it; one definition object per file path", min_instances=3)
-    c = ctx.cls("_dsdl_definition.DSDLDefinition")
-    stores = []
-    for name, fn in c.methods.items():
-        for st in ast.walk(fn.node):
-            if isinstance(st, (ast.Assign, ast.AnnAssign)):
-                t = st.targets[0] if isinstance(st, ast.Assign) else st.target
-                if norm(t) == "self._cached_type" and st.value is not None:
-                    in_handler = False
-                    for tr in ast.walk(fn.node):
-                        if isinstance(tr, ast.Try):
-                            for h in tr.handlers:
-                                if any(x is st for x in ast.walk(h)):
-                                    in_handler = True
-                    stores.append((name, norm(st.value), in_handler))
-    want = [("__init__", "None", False), ("read", "builder.finalize()", False)]
-    ctx.check(sorted(stores) == sorted(want), c.short, "stores: %s" % stores, "the cached composite is set exactly once per definition object, to the finished type", c.module.relpath)
-    rd = c.methods["read"]
-    body = body_without_docstring(rd.node)
-    hit = None
-    for i, st in enumerate(body):
-        if isinstance(st, ast.If) and norm(st.test) == "self._cached_type is not None":
-            rets = [r for r in st.body if isinstance(r, ast.Return)]
-            if rets and norm(rets[0].value) == "self._cached_type":
-                hit = i
-    first_effect = next((i for i, st in enumerate(body) if any(isinstance(x, ast.Call) and (dotted(x.func) or "").endswith(("DataTypeBuilder", "parse")) for x in ast.walk(st))), len(body))
-    ctx.check(hit is not None and hit < first_effect, rd.short, "cache hit returns the cached type before any parsing", "a definition is evaluated once; later reads return the same object", rd.where())
-    acc = c.methods.get("composite_type")
-    from ..regions import trivial_property_expr
+    ctx.rule("C09.R4", "cache discipline: a definition is built once; later reads return the same object without touching file, parser or builder; a failed build caches nothing; one definition object per file path", min_instances=3)
+    rd = ctx.func("_dsdl_definition.DSDLDefinition.read")
+    own = R.own_definition(ctx, "ns.sub.T", 1, 2)
+    o = R.read_own(ctx, own, [], times=3)
+    ctx.count(3)
+    if o["raised"]:
+        raise AnalysisError("DSDLDefinition.read over the abstract world raised %s" % o["raised"])
+    same = len(o["results"]) == 3 and all(r is o["final"] for r in o["results"])
+    ctx.check(same and len(o["builders"]) == 1 and o["opens"] == 1 and o["finalizes"] == 1 and len(o["parses"]) == 1 and o["order"] == ["builder", "parse", "finalize"], rd.short, "3 reads: %d builders, %d file opens, %d parses, %d finalizations" % (len(o["builders"]), o["opens"], len(o["parses"]), o["finalizes"]), "a definition is evaluated once; later reads return the same object", rd.where())
+    # a build that fails caches nothing: the next read starts over (and fails or succeeds on its own)
+    bad_def = R.own_definition(ctx, "ns.sub.T", 1, 2)
+    o2 = R.read_own(ctx, bad_def, [], times=2, parse_fails=1)
+    ctx.count(2)
+    ctx.check(o2["results"][:1] == ["raise DSDLSyntaxError"] and len(o2["results"]) == 2 and o2["results"][1] is o2["final"] and len(o2["builders"]) == 2, rd.short, "failed build, then a read again: %s" % [r if isinstance(r, str) else "built" for r in o2["results"]], "a failed build leaves nothing in the cache: a definition is never represented by a half-built type", rd.where())
+    # the accessor exposes exactly that object (None before the first read)
+    fresh = R.own_definition(ctx, "ns.sub.T", 1, 2)
+    from ..fold import Folder, Unfoldable
+    import ast as _ast
 
-    e = trivial_property_expr(ctx.repo, c, "composite_type")
-    ctx.check(e is not None and norm(e) == "self._cached_type", c.short + ".composite_type", norm(e) if e is not None else "?", "the accessor exposes the cache", c.module.relpath, nontrivial=False)
+    try:
+        before = Folder({"d": fresh}, ctx.repo, fresh._cls_.module, fresh._cls_).fold(_ast.parse("d.composite_type", mode="eval").body)
+        after = Folder({"d": own}, ctx.repo, own._cls_.module, own._cls_).fold(_ast.parse("d.composite_type", mode="eval").body)
+    except Unfoldable as ex:
+        raise AnalysisError("DSDLDefinition.composite_type: %s" % ex)
+    ctx.check(before is None and after is o["final"], "_dsdl_definition.DSDLDefinition.composite_type", "None before the first read, the built type afterwards", "the accessor exposes the cache", rd.module.relpath, nontrivial=False)
+    # the namespace reader works on one object per file path: a second object for the same file is replaced by the first
     nsr = ctx.func("_namespace_reader._read_definitions")
-    pool = [norm(st.value) for st in walk_no_nested(nsr.node) if isinstance(st, ast.Assign) and isinstance(st.value, ast.Call) and norm(st.value.func) == "file_pool.setdefault"]
-    ctx.check(len(pool) == 1 and pool[0].startswith("file_pool.setdefault(") and ".file_path, " in pool[0], nsr.short, str(pool), "one definition object (and therefore one cached type) per file path", nsr.where())
+    w = R.World()
+    D = R.ADef(w, "ns.D", 1, 0)
+    A1 = R.ADef(w, "ns.A", 1, 0, deps=[D])
+    A2 = R.ADef(w, "ns.A", 1, 0, deps=[D])  # another object for the same path
+    out = R.run_reader(ctx, [A1, A2], [A1, D])
+    ctx.count()
+    if out["raised"]:
+        raise AnalysisError("read_definitions over the abstract world raised %s" % out["raised"])
+    first_reads = [e[1] for e in w.log if e[0] == "read" and e[1].full_name == "ns.A"]
+    ctx.check(bool(first_reads) and all(x is A1 for x in first_reads) and R.names_of(out["result"].direct) == [A1.label], nsr.short, "two objects for one path: read %s" % sorted({("first" if x is A1 else "second") for x in first_reads}), "one definition object (and therefore one cached type) per file path", nsr.where())
 
 
 def run(ctx: Ctx) -> None:
     ctx.attempt(rule_r1_r2, ctx)
     ctx.attempt(rule_r3, ctx)
     ctx.attempt(rule_r4, ctx)
-    ctx.assume("the lookup list handed to the builder is finite; equality of DSDLDefinition is by (full name, version)")
+    ctx.assume("the lookup list handed to the builder is finite; the builder forwards its lookup list unchanged (R1) and read() removes the definition itself (R3), so the list strictly shrinks along any reference chain")
     ctx.undecided("equality of the nested type with a stand-alone read for all graphs and visiting orders (depends on run-time lookup contents)")
